@@ -642,3 +642,20 @@ def check_late_binding(ctx, rule, roots, eff=None):
     if not bad:
         ctx.holds(rule, None, None, f"{len(seen)} functions reachable from {', '.join(roots)}: gv read at call time", "no default-argument, memoised or module-level capture of gv")
     return eff
+
+
+def run_relabelled(ctx, fn, mapping, *args, **kw):
+    """run a rule function of another property and report its results under this property's rule ids: mapping {foreign id: own id}.
+    Used where two properties state the same clause about the same code (the transform of C02 is the domain-transform clause of C01,
+    the linear operator of C07/C08 is the fibre of C03's link): a change that breaks it is reported by each of them."""
+    n0 = len(ctx.results)
+    fn(ctx, *args, **kw)
+    for r in ctx.results[n0:]:
+        if r.rule in mapping:
+            own = mapping[r.rule]
+            ctx.counts[own] = ctx.counts.get(own, 0) + 1
+            ctx.counts[r.rule] = ctx.counts.get(r.rule, 1) - 1
+            r.rule = own
+    for k in list(mapping):
+        if ctx.counts.get(k) == 0:
+            ctx.counts.pop(k)
